@@ -22,10 +22,12 @@ def _norm(f) -> str:
     # multiset of statements, each tagged with its nesting (the guard structure it sits under): moving a
     # statement relative to its neighbours in one sibling changes nothing here; moving it into / out of a
     # branch, dropping, adding or altering it does
-    txt = "\n".join(sorted(_block(body)))
-    for pat, rep in SUBS:
-        txt = re.sub(pat, rep, txt)
-    return txt
+    lines = []
+    for ln in _block(body):
+        for pat, rep in SUBS:
+            ln = re.sub(pat, rep, ln)
+        lines.append(ln)
+    return "\n".join(sorted(lines))
 
 
 def _block(stmts) -> list[str]:
